@@ -1,6 +1,7 @@
 package main
 
 import (
+	"go/types"
 	"encoding/hex"
 	"encoding/json"
 	"fmt"
@@ -180,11 +181,13 @@ func (e *Engine) argRootsField(v ssa.Value, field string) (bool, string) {
 }
 
 func runC12(e *Engine, r *Report, tier string) {
-	r.Explanation = "C12, structural clauses. Decided: R1 three-way table agreement per object kind (oracle set, batch, bridge call): the argument list of the contract's abi.encode(...) at the hashing site in every solidity/contracts/bridge/FxBridgeLogic*.sol, the input list of the ABI pseudo-method the EVM encoder packs (from the ABI JSON embedded in contract/IFxBridgeLogic.go) and the Go arguments of that Pack call have the same length and order; each Go argument is rooted in the record field that the ABI input name denotes; the bytes32 tag literal in Solidity equals the padded ASCII of the Go tag string; the first argument is the gravity id parameter; the EVM encoder hashes packed[4:]; the Tron encoder's ordered {type: value} list has the same types and field roots; R2 the three tags are pairwise distinct; R3 the confirm handlers fetch the object by the message's nonce (absent -> error), compute the checkpoint from that object with the gravity id from params, call the signature validation with the message's bridger / external address / signature and that checkpoint, refuse duplicates, and store under the oracle returned by the validation; the validation's success requires: external-address index found, oracle record found, record external address == message's, record bridger == message's bridger, signature check == nil over that checkpoint with the record's external address; R4 MsgConfirm wrapper signer == wrapped bridger (shared with C02.R3). R5 the bridger index (0x14) through which the confirming oracle is resolved agrees with the oracle records (imported from C13.R1). Not decided: ECDSA/keccak properties, ABI encoding inside go-ethereum / gotron."
+	r.Explanation = "C12, structural clauses. Decided: R1 three-way table agreement per object kind (oracle set, batch, bridge call): the argument list of the contract's abi.encode(...) at the hashing site in every solidity/contracts/bridge/FxBridgeLogic*.sol, the input list of the ABI pseudo-method the EVM encoder packs (from the ABI JSON embedded in contract/IFxBridgeLogic.go) and the Go arguments of that Pack call have the same length and order; each Go argument is rooted in the record field that the ABI input name denotes; the bytes32 tag literal in Solidity equals the padded ASCII of the Go tag string; the first argument is the gravity id parameter; the EVM encoder hashes packed[4:]; the Tron encoder's ordered {type: value} list has the same types and field roots; R2 the three tags are pairwise distinct; R3 the confirm handlers fetch the object by the message's nonce (absent -> error), compute the checkpoint from that object with the gravity id from params, call the signature validation with the message's bridger / external address / signature and that checkpoint, refuse duplicates, and store under the oracle returned by the validation; the validation's success requires: external-address index found, oracle record found, record external address == message's, record bridger == message's bridger, signature check == nil over that checkpoint with the record's external address; R4 MsgConfirm wrapper signer == wrapped bridger (shared with C02.R3). R5 the bridger index (0x14) through which the confirming oracle is resolved agrees with the oracle records (imported from C13.R1). R6 genesis import writes a single-valued counter from inside a loop over imported objects only under a `>` comparison (running maximum): otherwise the counter ends at the nonce of whichever object is listed last, the next object re-uses a nonce, overwrites the stored object, and the confirmations kept for the old one sit under an object they do not sign. Not decided: ECDSA/keccak properties, ABI encoding inside go-ethereum / gotron."
 	r.Rule("R1", "checkpoint encoders agree with the contract's abi.encode and the ABI JSON, argument by argument", 9, "3 object kinds x (solidity, EVM encoder, Tron encoder)")
 	r.Rule("R2", "method tags pairwise distinct", 1, "")
 	r.Rule("R3", "confirm handlers + signature validation guards", 12, "3 handlers + validation routine")
 	r.Rule("R4", "MsgConfirm signer = wrapped bridger", 1, "")
+	r.Rule("R6", "an object's nonce is never handed out twice: genesis import restores a single-valued counter (latest oracle-set nonce, …) as the maximum over the imported objects, not as the value of whichever comes last", 1, "writes of single-key families in genesis import")
+	e.genesisCountersAreMax(r, "R6")
 	// the confirming oracle is resolved from the submitting bridger through the bridger index (0x14): that index must agree
 	// with the records (C13.R1 for 0x14: co-written, re-keyed on edit, deleted under the record's own bridger)
 	r.Rule("R5", "the bridger index (0x14) through which the confirming oracle is resolved agrees with the oracle records (C13.R1 for 0x14)", 3, "C13 obligations")
@@ -763,5 +766,60 @@ func (e *Engine) checkConfirmHandlers(r *Report) {
 	}
 	if nh < 3 {
 		r.Fail("R3", "confirm handlers", "", fmt.Sprintf("UNRESOLVED-ANCHOR: %d handlers call the validation routine (3 expected)", nh))
+	}
+}
+
+// genesisCountersAreMax: see C12.R6.
+func (e *Engine) genesisCountersAreMax(r *Report, rule string) {
+	n := 0
+	for _, fn := range e.Funcs {
+		if isAuxPkg(fnPkgPath(fn)) || fn.Parent() != nil || !strings.Contains(fn.Name(), "InitGenesis") || !strings.Contains(fnPkgPath(fn), "x/crosschain/keeper") {
+			continue
+		}
+		allCalls(fn, func(c ssa.CallInstruction) {
+			single := false
+			for _, cal := range e.calleesOf(c) {
+				for _, so := range e.Effects(cal) {
+					if so.Op != "set" || so.Key == nil {
+						continue
+					}
+					if u, ok := stripConv(so.Key).(*ssa.UnOp); ok {
+						if _, isG := u.X.(*ssa.Global); isG {
+							single = true
+						}
+					}
+				}
+			}
+			if !single {
+				return
+			}
+			n++
+			_, loop := loopOf(c.Block())
+			ck := e.CanonFnKey(fn) + " -> " + callName(c)
+			if loop == nil {
+				r.Ok(rule, ck, e.InstrPos(c), "written once, outside any loop")
+				return
+			}
+			var val ssa.Value
+			for _, a := range c.Common().Args {
+				if b, ok := a.Type().Underlying().(*types.Basic); ok && b.Info()&types.IsInteger != 0 {
+					val = a
+				}
+			}
+			okMax := false
+			for _, g := range GuardsOf(c) {
+				ci, ok := NormCond(g)
+				if !ok || ci.X == nil || ci.Y == nil {
+					continue
+				}
+				if (ci.Op == ">" && val != nil && SameExpr(ci.X, val, 6)) || (ci.Op == "<" && val != nil && SameExpr(ci.Y, val, 6)) {
+					okMax = true
+				}
+			}
+			r.Check(okMax, rule, ck, e.InstrPos(c), "written inside the loop only when the value exceeds the running maximum", "a single-valued counter is overwritten for every imported object: it ends at the value of the object that happens to be listed last, not at the maximum — after an import in another order the next object is created under a nonce that is already taken")
+		})
+	}
+	if n == 0 {
+		r.Fail(rule, "genesis counters", "", "UNRESOLVED-ANCHOR: genesis import writes no single-key family")
 	}
 }
